@@ -51,12 +51,12 @@ META = {
     ],
     'bounds': {
         'quick': 'melody/performance: all configurations (symbolic); density: '
-                 '<=3 boundaries; drums: all 512 indices, sets of 1 pitch; '
+                 '<=3 boundaries; drums: all 512 indices, all sets of <=2 pitches; '
                  'chords: all indices + 60 symbols',
-        'thorough': 'density <=4 boundaries; drum sets of 2 pitches over the '
+        'thorough': 'density <=4 boundaries; drum sets of 3 pitches over the '
                     'whole table + unknown pitches; ~700 chord symbols',
     },
-    'outside': ['drum sets of more than 2 pitches'],
+    'outside': ['drum sets of more than 3 pitches'],
 }
 
 
@@ -292,6 +292,9 @@ def jobs(tier):
   for lo in range(0, 512, 64):
     add('h_drums_decode', range=[lo, lo + 63])
   add('h_drums_encode', K=1, lo=0, hi=70)
+  for lo in range(0, 63, 8):
+    # all pairs of pitches (two pitches of one drum class set one bit)
+    add('h_drums_encode', K=2, lo=lo, hi=lo + 8, budget=900)
   add('h_chords_decode', triad=False)
   add('h_chords_decode', triad=True)
   n = 0
@@ -303,6 +306,6 @@ def jobs(tier):
                                                 if n % 4 == 0 else ''))
   if deep:
     add('h_density', B=4, budget=900)
-    for lo in range(0, 63, 8):
-      add('h_drums_encode', K=2, lo=lo, hi=lo + 8, budget=900)
+    for lo in range(0, 63, 4):
+      add('h_drums_encode', K=3, lo=lo, hi=lo + 4, budget=1800)
   return J
